@@ -449,6 +449,9 @@ def _isinstance(I, self, args, kw, fr, site):
     for k in classes:
         if isinstance(k, VFunc) and k.qualname.startswith("builtins."):
             k = VClass(k.qualname[9:])
+        if isinstance(k, VOpaque) and k.tag.startswith("lib:") and isinstance(v, VOpaque):
+            # library class vs library object: not decidable here, both outcomes are explored
+            return VBool(I.st.fresh_bool("isinstance_lib"))
         if not isinstance(k, VClass):
             raise Unsupported("isinstance against %r" % (k,))
         if I.E.type_is(tn, k.qualname, v):
